@@ -111,6 +111,8 @@ thread_local! {
 /// loom failure can abort the process while unwinding through destructors that
 /// call back into loom; the driver then still knows what happened).
 pub static PANIC_SINK: std::sync::Mutex<Option<(String, usize)>> = std::sync::Mutex::new(None);
+/// name of the program being run (for the same purpose)
+pub static CURRENT: std::sync::Mutex<String> = std::sync::Mutex::new(String::new());
 
 pub fn install_panic_hook() {
     std::panic::set_hook(Box::new(|info| {
@@ -138,7 +140,7 @@ pub fn install_panic_hook() {
                                     let _ = writeln!(
                                         f,
                                         "{}",
-                                        serde_json::json!({"panic": format!("{msg}{loc}"), "idx": idx})
+                                        serde_json::json!({"panic": format!("{msg}{loc}"), "idx": idx, "program": CURRENT.try_lock().map(|g| g.clone()).unwrap_or_default()})
                                     );
                                 }
                             }
@@ -281,6 +283,9 @@ fn classify(msg: &str) -> Kind {
 
 pub fn run_program(index: usize, p: &Program, cfg: &RunCfg, build: &str) -> ProgRecord {
     let t0 = Instant::now();
+    if let Ok(mut g) = CURRENT.try_lock() {
+        *g = p.name.clone();
+    }
     let mut rec = ProgRecord {
         index,
         name: p.name.clone(),
